@@ -43,6 +43,20 @@ Audit additions (classes of inputs inside the quantifier that the generators did
   during      an `Observer` looks at the stored state whenever a query enters one of the signal / statistics routines (a deterministic
               stand-in for the other thread of the property's schedules);
   crashes     the GUI part and the model-tag comparison can no longer raise out of `run`.
+Round 6 additions:
+  kind="dbq"     a history of retrievals on ONE database (file-backed .ts .dat .pkl .h5 with none / some / all series read, + in-memory series):
+                 getm / getd / getl / getda / geta / get / stats / stats_dataframe / list / copy / update-from / iteration / containment, by names
+                 (str, list, tuple, pattern, non-file order), by index, store=False, full keys, with processing options - and in between calls
+                 the database REJECTS (`DBQ_FAULTS`: index out of range / of a wrong type, names of a wrong type, names and index, no / unknown /
+                 ambiguous name, refused option values, parent file missing while a series is to be read, duplicate key, rename onto an existing
+                 key, update / load / export / to_dataframe refused ...). After every step: the registers and the series held in memory are
+                 unchanged; every retrieval gives the answer it gave the first time and the answer of a second database loaded from the same
+                 files on which nothing was ever rejected; retrievals asked together in threads answer as alone. EVERY call runs in a worker
+                 thread under a time limit (`guarded`): a call that does not return is the failing clause "the repeated retrieval returns".
+  kind="shared"  ONE caller's array handed to two or three series (modify(resample=arr) twice, get / resample / interpolate / the constructor),
+                 as ndarray / view / float32 / int array / list / tuple, followed by in-place operations on the first series (data scaled,
+                 time shifted, set_dtg_ref, modify, writing to returned arrays): the other series and the caller's array stay unchanged and no
+                 two of them share memory.
 Known-finding shapes (effective only with an entry of that id in known_findings.json): `is_alias_common_time`, `is_threshold_0d`.
 """
 import contextlib
@@ -73,6 +87,9 @@ RULE = ("all 72 combinations of (window, resample none/step/array, taper, filter
         "series copies: 7 time grids x 3 date-time references x query histories ([], [dtg_time], random) x 5 ways of copying; "
         "database copies: file-backed (.ts .dat .pkl .h5, 1-2 files) with every kind of preloaded subset (none / some / all) "
         "+ in-memory series x copy / update x deep / shallow x all names / selection in non-file order; "
+        "retrieval histories on one database (12 retrieval methods x names / index / pattern / store=False / options) with 23 kinds of "
+        "rejected calls in between (each call in a worker thread under a time limit), compared with the first answer and with a second "
+        "database on the same files; one caller's array handed to 2-3 series by 6 routes x 7 spellings, then in-place operations on the first; "
         "non-trivial = any option set, threaded run, non-empty history or file-backed database; distinct by the case dictionary")
 
 
@@ -1332,6 +1349,648 @@ def check_gui_case(inp):
     return F
 
 
+# ======================================================================================================================
+#  retrieval histories on one database with rejected calls in between (kind="dbq"); every call runs under a time limit
+# ======================================================================================================================
+# A retrieval that is rejected (index out of range, names / index / name of a wrong type, unknown or ambiguous name, refused option,
+# parent file missing when a series is to be read, ...) or a rejected change of the database (duplicate key, rename onto an existing
+# key, export onto an existing file, ...) must leave the database as it was: the retrievals made before give the same answer when
+# they are repeated afterwards on the same object - and they do give an answer. Every call on the database is made in a worker thread
+# with a time limit (a call that never returns must not block the check).
+TIME_LIMIT = (3., 6.)       # seconds: a call that is not back after the first gets the second on top before it is said to hang
+RETURNS_ORACLE = ("a retrieval gives the same answer when repeated (also after an earlier call on the same database was rejected): "
+                  "the repeated retrieval returns")
+AGAIN_ORACLE = "a retrieval gives the same answer when repeated on the same database (also after an earlier call on it was rejected)"
+TWIN_ORACLE = ("a retrieval gives the same answer when repeated: the same as on a second database loaded from the same files on which no "
+               "call was rejected")
+KEEP_ORACLE = "retrievals (also rejected ones) leave the stored series and the keys of the database unchanged"
+
+
+def guarded(f, *a, limit=TIME_LIMIT, **k):
+    """f(*a, **k) in a worker thread -> ("ok", value) | ("raised", exception) | ("hangs", None)"""
+    out = {}
+
+    def work():
+        try:
+            out["ok"] = f(*a, **k)
+        except BaseException as e:      # noqa
+            out["raised"] = e
+    th = threading.Thread(target=work, daemon=True)
+    th.start()
+    th.join(limit[0])
+    if th.is_alive():
+        th.join(limit[1])
+    if th.is_alive():
+        return "hangs", None
+    if "raised" in out:
+        return "raised", out["raised"]
+    return "ok", out.get("ok")
+
+
+def canon(v):
+    """answer of a retrieval as plain data (series by value), comparable with `same`"""
+    if type(v).__name__ == "TimeSeries":
+        return ["TimeSeries", v.name, np.array(v.t), np.array(v.x), v.parent, freeze(v.kind), freeze(v.unit), v.dtg_ref]
+    if type(v).__name__ == "TsDB":
+        return ["TsDB", list(v.register_keys), [canon(v.register[k_]) for k_ in v.register_keys]]
+    if isinstance(v, dict):
+        return [[k_, canon(x)] for k_, x in v.items()]
+    if isinstance(v, (list, tuple)):
+        return [canon(x) for x in v]
+    if isinstance(v, np.ndarray):
+        return np.array(v)
+    return v
+
+
+DBQ_MULTI = ["getm", "getd", "getl", "getda", "stats", "stats_dataframe", "list", "copy", "update-from"]
+DBQ_SINGLE = ["get", "geta"]
+DBQ_OPTS = [{}, {"twin": "inner"}, {"resample": "own-dt"}, {"resample": 0.4}, {"twin": "inner", "resample": 0.4}, {"taperfrac": 0.1},
+            {"resample": {"v": "inner-grid", "as": "ndarray"}}, {"resample": {"v": "inner-grid", "as": "list"}},
+            {"filterargs": ["lp", 0.2], "resample": "own-dt"}, {"window_len": 3}, {"twin": "whole"}, {"twin": {"v": "inner", "as": "list"}}]
+DBQ_BADOPTS = [{"twin": "abc"}, {"resample": "x"}, {"resample": -1.0}, {"resample": 0}, {"filterargs": ["xx", 0.2]}, {"filterargs": ["lp"]},
+               {"window_len": "a"}, {"nosuch": 1}, {"twin": [1e9, 2e9], "resample": 0.1}, {"window": "nosuch", "window_len": 5},
+               {"taperfrac": "a"}, {"twin": [3]}, {"resample": [1e9, 2e9]}]
+DBQ_BADVALS = {"float": 3.14, "int": 5, "bytes": b"a0", "set": None, "dict": {"a0": 1}, "object": None, "str-index": "0",
+               "float-index": 1.5, "list-float": [0.5], "list-none": [None], "bool": True}
+DBQ_FAULTS = ["ind-range", "ind-type", "names-type", "names-and-ind", "get-nothing", "get-name-type", "get-unknown", "get-ambiguous",
+              "bad-option", "missing-file", "rename-existing", "rename-unknown", "add-duplicate", "add-type", "update-type",
+              "update-duplicate", "load-missing", "load-type", "export-exists", "export-ext", "export-type", "dataframe-not-common",
+              "contains-type"]
+
+
+SKIPPED = "(not applicable to this database: call not made)"
+DBQ_CHANGES = ("rename-existing", "rename-unknown", "add-duplicate", "add-type", "update-type", "update-duplicate", "load-missing", "load-type")
+
+
+def _badval(kind):
+    if kind == "set":
+        return {"a0"}
+    if kind == "object":
+        return object()
+    return DBQ_BADVALS[kind]
+
+
+def _sel(a):
+    """the `names` argument of a step: None / str / list / tuple"""
+    s_ = a.get("names")
+    if isinstance(s_, list) and a.get("names_as") == "tuple":
+        return tuple(s_)
+    return s_
+
+
+def direct(f, *a, **k):
+    """(the worker threads do not redirect the standard output themselves - that is not thread-safe; the whole case is run quietly)"""
+    return f(*a, **k)
+
+
+def _opts_for(ref, names, opts):
+    """symbolic processing options -> keyword arguments, resolved against the first selected series of the reference database"""
+    if not opts:
+        return {}
+    got = direct(ref.getl, names=names)
+    if not got:
+        return {}
+    return resolve_opts(got[0], opts)[0]
+
+
+def dbq_call(db, op, a, ref):
+    """one retrieval on the database db"""
+    from qats import TsDB
+    kw = {}
+    if "ind" in a:
+        kw["ind"] = a["ind"]
+    elif op in DBQ_SINGLE:
+        kw["name"] = a["name"]
+    elif op not in ("iter", "len", "common", "contains"):
+        kw["names"] = _sel(a)
+    if "store" in a and op not in ("list", "copy", "update-from", "is_common_time"):
+        kw["store"] = a["store"]
+    if a.get("fullkey") and op in ("getm", "getd", "getda", "stats", "stats_dataframe"):
+        kw["fullkey"] = True
+    if a.get("opts"):
+        first = a["name"] if op in DBQ_SINGLE and "name" in a else (_sel(a) if "ind" not in a else None)
+        if "ind" in a:
+            i_ = a["ind"] if isinstance(a["ind"], int) else a["ind"][0]
+            first = ref.register_keys[i_]
+        kw.update(_opts_for(ref, first, a["opts"]))
+    if op in ("getm", "getd", "getl", "getda", "get", "geta", "stats", "stats_dataframe"):
+        return direct(getattr(db, op), **kw)
+    if op == "list":
+        return direct(db.list, names=kw["names"], display=False, relative=bool(a.get("relative")))
+    if op == "copy":
+        return direct(db.copy, names=kw["names"], shallow=bool(a.get("shallow")))
+    if op == "update-from":
+        other = TsDB()
+        direct(other.update, db, names=kw["names"], shallow=bool(a.get("shallow")))
+        return other
+    if op == "is_common_time":
+        return direct(db.is_common_time, names=kw["names"])
+    if op == "iter":
+        return list(db)
+    if op == "len":
+        return (len(db), db.n, db.common)
+    if op == "contains":
+        return a["name"] in db
+    raise ValueError(op)
+
+
+def dbq_fault(db, a, ctx):
+    """one call that the database is expected to reject (the exception propagates; if the call is accepted, its value is returned)"""
+    from qats import TimeSeries, TsDB
+    what, via = a["what"], a.get("via", "getm")
+    n = len(db.register_keys)
+    nm = a.get("name")
+
+    def multi(**kw):
+        if via == "copy":
+            return direct(db.copy, **{k: v for k, v in kw.items() if k == "names"})
+        if via == "update-from":
+            return direct(TsDB().update, db, **{k: v for k, v in kw.items() if k == "names"})
+        if via == "list":
+            return direct(db.list, display=False, **{k: v for k, v in kw.items() if k == "names"})
+        if via in DBQ_SINGLE:
+            kw = {("name" if k == "names" else k): v for k, v in kw.items()}
+        return direct(getattr(db, via), **kw)
+    if what == "ind-range":
+        ind = {"n": n, "n+5": n + 5, "[0,n]": [0, n], "-n-1": -n - 1, "[n+1]": [n + 1]}[a["ind"]]
+        if via in DBQ_SINGLE and isinstance(ind, list):
+            ind = ind[-1]
+        return multi(ind=ind)
+    if what == "ind-type":
+        return multi(ind=_badval(a["bad"]))
+    if what == "names-type":
+        return multi(names=_badval(a["bad"]))
+    if what == "names-and-ind":
+        return multi(names=nm, ind=0)
+    if what == "get-nothing":
+        return direct(getattr(db, via if via in DBQ_SINGLE else "get"))
+    if what == "get-name-type":
+        return direct(getattr(db, via if via in DBQ_SINGLE else "get"), name=_badval(a["bad"]))
+    if what == "get-unknown":
+        return direct(getattr(db, via if via in DBQ_SINGLE else "get"), name="no_such_series")
+    if what == "get-ambiguous":
+        return direct(getattr(db, via if via in DBQ_SINGLE else "get"), name="*")
+    if what == "bad-option":
+        bad = {k: (tuple(v) if k in ("filterargs", "twin") else v) for k, v in a["opts"].items()}
+        if via == "geta":
+            return direct(db.geta, name=nm, **bad)
+        return direct(getattr(db, via if via in ("getda", "stats", "stats_dataframe", "to_dataframe") else "getda"), names=nm, **bad)
+    if what == "missing-file":          # the parent file is away while the series is asked for
+        unread = [n_ for n_, p_ in ctx["where"].items() if p_ is not None and db.register.get(key_of(db, n_)) is None]
+        if ctx["where"].get(nm) is None or nm not in unread:        # (held in memory already: take one that is still to be read)
+            if not unread:
+                return SKIPPED
+            nm = unread[0]
+        path = ctx["where"][nm]
+        shutil.move(path, path + ".away")
+        try:
+            return multi(names=nm)
+        finally:
+            shutil.move(path + ".away", path)
+    if what == "rename-existing":
+        if os.path.join(db._path_dirname(key_of(db, nm)), a["other"]) not in db.register_keys:
+            return SKIPPED
+        return direct(db.rename, nm, a["other"])
+    if what == "rename-unknown":
+        return direct(db.rename, "no_such_series", "x")
+    if what == "add-duplicate":         # a series whose key exists already
+        if os.path.join(db.common, nm) not in db.register:
+            return SKIPPED
+        return db.add(TimeSeries(nm, np.arange(3.), np.arange(3.)))
+    if what == "add-type":
+        return db.add((np.arange(3.), np.arange(3.)))
+    if what == "update-type":
+        return db.update({nm: None})
+    if what == "update-duplicate":      # the database is updated from a copy of itself: every key exists already
+        return direct(db.update, direct(db.copy, names=nm))
+    if what == "load-missing":
+        return direct(db.load, os.path.join(ctx["root"], "no_such_file.ts"))
+    if what == "load-type":
+        return direct(db.load, 3.14)
+    if what == "export-exists":
+        path = os.path.join(ctx["root"], "exists_already.ts")
+        open(path, "w").close()
+        return direct(db.export, path, names=nm, exist_ok=False)
+    if what == "export-ext":
+        return direct(db.export, os.path.join(ctx["root"], "out.no_such_format"), names=nm)
+    if what == "export-type":
+        return direct(db.export, 3.14, names=nm)
+    if what == "dataframe-not-common":
+        other = TimeSeries("zz_other_grid", np.arange(5.) * 0.37 + 0.11, np.arange(5.))
+        tmp = direct(db.copy, names=nm, shallow=True)
+        tmp.add(other)
+        return direct(tmp.to_dataframe)
+    if what == "contains-type":
+        return 3.14 in db
+    raise ValueError(what)
+
+
+def _db_state(db):
+    """keys and the series held in memory (by value)"""
+    held = {k_: (light(v), v) for k_, v in db.register.items() if v is not None}
+    return (list(db.register_keys), dict(db.register_parent), dict(db.register_indices)), held
+
+
+def check_dbq_case(inp, info=None, limit=TIME_LIMIT):
+    root = tempfile.mkdtemp(prefix="qv10q_")
+    cwd = os.getcwd()
+    try:
+        if inp.get("rel"):
+            os.chdir(root)
+        with contextlib.redirect_stdout(io.StringIO()):
+            return _check_dbq_case(inp, root, info if info is not None else {}, limit)
+    finally:
+        os.chdir(cwd)
+        shutil.rmtree(root, ignore_errors=True)
+
+
+def _check_dbq_case(inp, root, info, limit):
+    from qats import TsDB
+    F = []
+    db, where = build_db(inp, root)
+    paths = []
+    for f in inp["files"]:
+        if where[f["names"][0]] not in paths:
+            paths.append(where[f["names"][0]])
+    ref = TsDB()                                        # the same files and in-memory series; nothing is ever rejected on it
+    if paths:
+        quiet(ref.load, paths, read=False)
+    for spec in inp["mem"]:
+        ref.add(build_series(spec))
+    ctx = dict(root=root, where={nm: (None if p is None else os.path.abspath(p)) for nm, p in where.items()})
+    for nm in inp.get("preload", []):
+        st, _ = guarded(db.get, name=nm, limit=limit)
+        if st == "hangs":
+            F.append((RETURNS_ORACLE, "get(name=%r) returns" % nm, "no answer within %.0f s" % sum(limit)))
+            info["cut"] = -1
+            return F
+    keys0, held = _db_state(db)
+    expected, first = {}, {}
+    info["faults"] = []
+    rejected = []               # the rejected calls so far (for the message)
+    for k, (op, a) in enumerate(inp["steps"]):
+        if op == "!fault":
+            st, v = guarded(dbq_fault, db, a, ctx, limit=limit)
+            info["faults"].append((a["what"], type(v).__name__ if st == "raised" else "not-applicable" if (isinstance(v, str) and v == SKIPPED) else st))
+            if st == "hangs":
+                F.append((RETURNS_ORACLE[:-len("the repeated retrieval returns")] + "the rejected call itself returns", "an exception or an answer",
+                          "step %d %r: no answer within %.0f s" % (k, a, sum(limit))))
+                info["cut"] = k
+                return F
+            if st == "raised":
+                rejected.append("%s (%s)" % (a["what"], type(v).__name__))
+            elif a["what"] in DBQ_CHANGES and not (isinstance(v, str) and v == SKIPPED):
+                return F        # (the change was accepted: the database is another one now - not a matter of this property)
+        elif op == "par":       # several retrievals at the same time
+            subs = [(o2, a2, json_key(o2, a2)) for o2, a2 in a]
+            for o2, a2, key in subs:
+                if key not in expected:
+                    st, v = guarded(dbq_call, ref, o2, a2, ref, limit=limit)
+                    expected[key] = (st, canon(v) if st == "ok" else v)
+            outs = {}
+
+            def together():
+                ths = [threading.Thread(target=lambda i=i, o2=o2, a2=a2: outs.__setitem__(i, guarded(dbq_call, db, o2, a2, ref, limit=limit)),
+                                        daemon=True) for i, (o2, a2, _) in enumerate(subs)]
+                for t_ in ths:
+                    t_.start()
+                for t_ in ths:
+                    t_.join()
+            together()
+            for i, (o2, a2, key) in enumerate(subs):
+                st, v = outs.get(i, ("hangs", None))
+                if st == "hangs":
+                    F.append((RETURNS_ORACLE, "%s(%s) returns (asked together with %d other retrievals)" % (o2, a2, len(subs) - 1),
+                              "step %d: no answer within %.0f s; rejected before: %s" % (k, sum(limit), rejected or "nothing")))
+                    info["cut"] = k
+                    return F
+                est, ev = expected[key]
+                if est == "ok" and (st != "ok" or not same(canon(v), ev)):
+                    F.append(("retrievals give the same answer when run concurrently on the same database", "as when asked alone",
+                              "step %d: %s(%s) %s" % (k, o2, a2, "raised %r" % v if st != "ok" else "differs")))
+        else:
+            key = json_key(op, a)
+            if key not in expected:
+                st, v = guarded(dbq_call, ref, op, a, ref, limit=limit)
+                if st == "hangs":
+                    F.append((RETURNS_ORACLE, "%s(%s) returns" % (op, a), "step %d: no answer within %.0f s on the second database" % (k, sum(limit))))
+                    info["cut"] = k
+                    return F
+                expected[key] = (st, canon(v) if st == "ok" else v)
+            st, raw = guarded(dbq_call, db, op, a, ref, limit=limit)
+            if st == "hangs":
+                F.append((RETURNS_ORACLE, "%s(%s) returns" % (op, a),
+                          "step %d: no answer within %.0f s; rejected before: %s" % (k, sum(limit), rejected or "nothing")))
+                info["cut"] = k
+                return F
+            est, ev = expected[key]
+            if st == "raised":
+                if est == "ok":
+                    F.append((TWIN_ORACLE, "an answer", "step %d: %s(%s) raised %s: %s; rejected before: %s" % (
+                        k, op, a, type(raw).__name__, str(raw)[:100], rejected or "nothing")))
+                if key in first and first[key][0] == "ok":
+                    F.append((AGAIN_ORACLE, "an answer as the first time", "step %d: %s(%s) raised %s: %s; rejected before: %s" % (
+                        k, op, a, type(raw).__name__, str(raw)[:100], rejected or "nothing")))
+            else:
+                c = canon(raw)
+                if est == "ok" and not same(c, ev):
+                    F.append((TWIN_ORACLE, "equal", "step %d: %s(%s) differs; rejected before: %s" % (k, op, a, rejected or "nothing")))
+                if key in first and first[key][0] == "ok" and not same(c, first[key][1]):
+                    F.append((AGAIN_ORACLE, "equal", "step %d: %s(%s) differs from its first answer; rejected before: %s" % (
+                        k, op, a, rejected or "nothing")))
+                if op in ("geta", "getda", "stats", "stats_dataframe"):
+                    stored = [s_ for s_ in db.register.values() if s_ is not None]
+                    if any(np.shares_memory(r_, q) for r_ in arrays_in(raw) for s_ in stored for q in (s_._t, s_.x)):
+                        F.append(("returned arrays do not alias the stored ones", "no shared memory",
+                                  "step %d: %s(%s) returned an array that shares memory with a stored series" % (k, op, a)))
+            first.setdefault(key, (st, canon(raw) if st == "ok" else raw))
+        # ---- the database after the step: same keys; the series held in memory are the same objects with the same content
+        keys1, held1 = _db_state(db)
+        if keys1 != keys0:
+            F.append((KEEP_ORACLE, "keys, parents and indices as before", "step %d %s(%s): the registers changed" % (k, op, a)))
+        for k_, (l0, obj) in held.items():
+            if held1.get(k_, (None, None))[0] != l0:
+                F.append((KEEP_ORACLE, "stored series as before", "step %d %s(%s): the series held for key %r changed" % (k, op, a, os.path.basename(k_))))
+        for k_, v in held1.items():
+            held.setdefault(k_, v)
+        if F:
+            info["cut"] = k
+            return F
+    return F
+
+
+def json_key(op, a):
+    import json
+    return json.dumps([op, a], sort_keys=True, default=str)
+
+
+def gen_dbq_cases(rng, quick):
+    cases = []
+    N = 26 if quick else 300
+    for i in range(N):
+        nfiles = 1 + (i % 2) if i < 8 else rng.choice([0, 1, 1, 1, 2])
+        files, names = [], []
+        for f in range(nfiles):
+            nms = ["%s%d" % ("ab"[f], j) for j in range(rng.randint(2, 4))]
+            files.append(dict(fmt=FORMATS[(i + f) % 4] if i < 8 else rng.choice(FORMATS), names=nms, grid=rng.choice(["half", "third"]),
+                              n=rng.choice([30, 60])))
+            names += nms
+        mem = [dict(name="m%d" % j, grid=rng.choice(["half", "nonuni", "third", "random"]), dtg=rng.choice(DTGS), n=rng.choice([30, 60]),
+                    seed=2000 + i * 10 + j, parent=None) for j in range(rng.choice([0, 1, 1, 2]) if nfiles else rng.randint(2, 3))]
+        allnames = names + [m["name"] for m in mem]
+        mode = i % 3 if i < 8 else rng.randrange(3)          # series read before the history starts: none / some / all
+        pre = [] if mode == 0 else list(names) if mode == 2 else [nm for nm in names if rng.random() < 0.5]
+
+        def selection():
+            c = rng.random()
+            if c < 0.2:
+                return dict(names=None)
+            if c < 0.4:
+                return dict(names=rng.choice(allnames))
+            if c < 0.55:
+                return dict(names=rng.choice(["a*", "*0", "*1", "m*", "*"]))
+            d = dict(names=rng.sample(allnames, rng.randint(1, len(allnames))))
+            if rng.random() < 0.3:
+                d["names_as"] = "tuple"
+            return d
+
+        def retrieval():
+            op = rng.choice(DBQ_MULTI + DBQ_SINGLE + ["getm", "getda", "geta", "get", "iter", "len", "contains", "is_common_time"])
+            if op in DBQ_SINGLE:
+                a = dict(name=rng.choice(allnames)) if rng.random() < 0.7 else dict(ind=rng.randrange(len(allnames)))
+            elif op in ("iter", "len"):
+                a = {}
+            elif op == "contains":
+                a = dict(name=rng.choice(allnames + ["no_such_series", "a*"]))
+            elif op not in ("list", "copy", "update-from", "is_common_time") and rng.random() < 0.25:
+                a = dict(ind=rng.choice([rng.randrange(len(allnames)), sorted(rng.sample(range(len(allnames)), rng.randint(1, len(allnames))),
+                                                                               reverse=rng.random() < 0.5), -1]))
+            else:
+                a = selection()
+            if op in ("geta", "getda", "stats", "stats_dataframe") and rng.random() < 0.7:
+                a["opts"] = rng.choice(DBQ_OPTS)
+            if op in ("getm", "getd", "getl", "getda", "get", "geta", "stats") and rng.random() < 0.3:
+                a["store"] = False
+            if op in ("getm", "getd", "getda", "stats", "stats_dataframe") and rng.random() < 0.25:
+                a["fullkey"] = True
+            if op in ("copy", "update-from"):
+                a["shallow"] = rng.random() < 0.4
+            if op == "list":
+                a["relative"] = rng.random() < 0.5
+            return [op, a]
+
+        def fault():
+            what = DBQ_FAULTS[(i + len(steps)) % len(DBQ_FAULTS)] if rng.random() < 0.5 else rng.choice(DBQ_FAULTS[:10])
+            a = dict(what=what, via=rng.choice(DBQ_MULTI[:6] + DBQ_SINGLE), name=rng.choice(allnames))
+            if what == "ind-range":
+                a["ind"] = rng.choice(["n", "n+5", "[0,n]", "-n-1", "[n+1]"])
+            elif what == "ind-type":
+                a["bad"] = rng.choice(["str-index", "float-index", "list-float", "list-none", "dict"])
+            elif what in ("names-type", "get-name-type"):
+                a["bad"] = rng.choice(["float", "int", "bytes", "set", "dict", "object"])
+                if what == "names-type":
+                    a["via"] = rng.choice(DBQ_MULTI)
+            elif what == "bad-option":
+                a["opts"] = rng.choice(DBQ_BADOPTS)
+                a["via"] = rng.choice(["geta", "getda", "stats", "stats_dataframe", "to_dataframe"])
+            elif what == "missing-file":
+                unread = [nm for nm in names if nm not in pre]
+                a["name"] = rng.choice(unread or names or allnames)
+                a["via"] = rng.choice(DBQ_MULTI[:6] + DBQ_SINGLE + ["copy", "update-from"])
+            elif what == "rename-existing":
+                same_file = [nm for nm in allnames if nm != a["name"] and nm[0] == a["name"][0]]
+                a["other"] = rng.choice(same_file) if same_file else a["name"]
+            return ["!fault", a]
+        pool = [retrieval() for _ in range(rng.randint(3, 6))]
+        steps = []
+        for _ in range(rng.randint(6, 14) if quick else rng.randint(6, 30)):
+            c = rng.random()
+            if c < 0.4:
+                steps.append(fault())
+                steps.append(rng.choice(pool))          # ... and a retrieval afterwards
+            elif c < 0.5:
+                steps.append(["par", [rng.choice(pool) for _ in range(rng.randint(2, 4))]])
+            else:
+                steps.append(rng.choice(pool))
+        case = dict(kind="dbq", seed=500 + i, files=files, mem=mem, preload=pre, steps=steps)
+        if files and rng.random() < 0.2:
+            case["rel"] = rng.choice(["bare", "dot"])
+        cases.append(case)
+    return cases
+
+
+def minimise_dbq(inp, info, F=None):
+    """a failing history cut after the failing step; if one of the rejected calls and the failing step alone fail as well, only those
+    (tried with a short time limit: the full history has failed with the long one already) -> (history, its failing clauses)"""
+    cut = info.get("cut")
+    if cut is None or cut < 0:
+        return inp, F
+    steps = inp["steps"][:cut + 1]
+    small = dict(inp, steps=steps)
+    fl = [j for j, s_ in enumerate(steps[:-1]) if s_[0] == "!fault"]
+    tries = [[steps[j], steps[-1]] for j in reversed(fl)] if len(steps) > 2 else []
+    for t_ in tries:
+        cand = dict(inp, steps=t_)
+        try:
+            Fc = check_dbq_case(cand, limit=(2., 0.))
+            if Fc:
+                return cand, Fc
+        except Exception:
+            pass
+    return small, F
+
+
+def run_dbq_cases(chk):
+    cases = [c for c in core.load_corpus("C10") if c.get("kind") == "dbq"] + gen_dbq_cases(chk.rng, chk.quick)
+    hangs = 0
+    for inp in cases:
+        if hangs >= 1:          # (each call that does not return costs the whole time limit)
+            break
+        chk.count("dbq-case")
+        chk.nontriv(repr(inp))
+        for f in inp["files"]:
+            chk.dist("dbq-format:" + f["fmt"])
+        info = {}
+        try:
+            F = check_dbq_case(inp, info)
+        except Exception as e:
+            tb = traceback.extract_tb(e.__traceback__)
+            F = [("evaluating the case (a history of retrievals on one database) completes without an exception of the harness", "no exception",
+                  dict(exception=repr(e)[:300], where=["%s:%d %s" % (os.path.basename(fr.filename), fr.lineno, fr.name) for fr in tb[-3:]]))]
+        for what, how in info.get("faults", []):
+            chk.dist("dbq-rejected:%s:%s" % (what, how))
+        for op, a in inp["steps"]:
+            chk.dist("dbq-step:" + (op if op != "!fault" else "rejected-call"))
+        if F:
+            if any("no answer within" in str(obs) for _, _, obs in F):
+                hangs += 1
+            small, F = minimise_dbq(inp, info, F)
+            for oracle, expected, observed in F:
+                chk.fail(oracle, small, expected, observed)
+
+
+# ======================================================================================================================
+#  one caller's array handed to two series (kind="shared"), then in-place operations on the first one
+# ======================================================================================================================
+SHARED_VIA = ["modify", "modify", "get", "resample", "interpolate", "constructor"]
+SHARED_AS = ["ndarray", "ndarray", "view", "list", "f4", "int-array", "tuple"]
+SHARED_OPS = ["x_scale", "x_inplace", "t_inplace", "set_dtg_ref", "set_dtg_ref_none", "modify_twin", "write_returned", "attrs", "modify_again"]
+SHARED_ORACLE = ("a series shares no mutable state with another series or with the caller's array it was resampled to / built from: "
+                 "in-place operations on one series leave the other series and the caller's array unchanged")
+
+
+def check_shared_case(inp):
+    from qats import TimeSeries
+    from datetime import datetime
+    F = []
+    objs = [build_qseries(sp) for sp in inp["series"]]
+    lo = max(float(o.t[0]) for o in objs)
+    hi = min(float(o.t[-1]) for o in objs)
+    g = np.linspace(lo + 0.1 * (hi - lo), hi - 0.1 * (hi - lo), inp.get("m", 37))
+    how = inp["as"]
+    if how == "list":
+        arr = [float(_) for _ in g]
+    elif how == "tuple":
+        arr = tuple(float(_) for _ in g)
+    elif how == "int-array":
+        arr = np.unique(np.ceil(g[:-1])).astype(np.int64)
+    elif how == "ndarray":
+        arr = np.array(g)
+    else:
+        arr = spelled_array(g, how)
+    arr0 = pycopy.deepcopy(arr)
+    returned = []
+    for i, via in enumerate(inp["via"]):        # the same array goes to every series
+        o = objs[i]
+        try:
+            if via == "modify":
+                o.modify(resample=arr)
+            elif via == "get":
+                returned.append(o.get(resample=arr))
+            elif via == "resample":
+                returned.append(o.resample(t=np.asarray(arr)))
+            elif via == "interpolate":
+                returned.append(o.interpolate(np.asarray(arr)))
+            elif via == "constructor":
+                objs[i] = TimeSeries("c%d" % i, arr, np.cos(np.asarray(arr, dtype=float)), dtg_ref=datetime(2020, 1, 2, 3, 4, 5))
+            else:
+                raise ValueError(via)
+        except ValueError:
+            raise
+        except Exception:       # refused (e.g. a tuple is not a time array for get): nothing was handed over
+            pass
+    a, others = objs[0], objs[1:]
+
+    def own(when):
+        ok = True
+        for i, o in enumerate(objs):
+            if isinstance(arr, np.ndarray) and (np.shares_memory(o._t, arr) or np.shares_memory(o.x, arr)):
+                F.append((OWN_ORACLE[:-1] + " and modify does not keep them)", "no shared memory",
+                          "series %d shares memory with the caller's array %s" % (i, when)))
+                ok = False
+            for j, q in enumerate(objs[i + 1:], i + 1):
+                if any(np.shares_memory(u, v) for u in (o._t, o.x) for v in (q._t, q.x)):
+                    F.append((SHARED_ORACLE, "no shared memory", "series %d and series %d share an array %s" % (i, j, when)))
+                    ok = False
+        return ok
+    if not same(arr, arr0):
+        F.append(("a query does not modify the caller's resampling array", "unchanged", "changed by " + "/".join(inp["via"])))
+    own("after " + " / ".join("%s(%s)" % (v, how) for v in inp["via"]))
+    before = [snap(o, skip=CACHE) for o in others]
+    answers = []
+    for o in others:
+        try:
+            answers.append(canon((o.get(), o.stats())))
+        except Exception:
+            answers.append(None)
+    for op in inp["ops"]:
+        try:
+            if op == "t_inplace":
+                a.t[:] = a.t + 100.
+            elif op == "modify_twin":
+                a.modify(twin=(float(a.t[2]), float(a.t[-3])))
+            elif op == "modify_again":
+                a.modify(resample=arr)
+            elif op == "write_returned":
+                for r_ in arrays_in(returned):
+                    if r_.flags.writeable and r_.dtype.kind == "f":
+                        r_ *= -1.
+                        r_ += 7.
+            else:
+                apply_mutation(a, dict(op=op, k=3))
+        except Exception:       # (e.g. a read-only array: the operation is refused)
+            pass
+        bad = []
+        if op != "write_returned" and not same(arr, arr0):
+            bad.append("the caller's array changed")
+        for j, (o, b0) in enumerate(zip(others, before)):
+            now = snap(o, skip=CACHE)
+            if now != b0:
+                bad.append("series %d changed: %s" % (j + 1, what_changed(b0, now)))
+            elif answers[j] is not None:
+                try:
+                    if not same(canon((o.get(), o.stats())), answers[j]):
+                        bad.append("series %d answers get() / stats() differently" % (j + 1))
+                except Exception as e:
+                    bad.append("series %d: get() / stats() raised %r" % (j + 1, e))
+        if bad:
+            F.append((SHARED_ORACLE, "unchanged", "after `%s` on series 0: %s" % (op, "; ".join(bad))))
+            break
+    return F
+
+
+def gen_shared_cases(rng, quick):
+    cases = [dict(kind="shared", series=[dict(uniform=True, n=200, seed=1), dict(uniform=False, n=200, seed=2)], via=["modify", "modify"],
+                  **{"as": "ndarray"}, ops=list(SHARED_OPS))]
+    for i in range(30 if quick else 400):
+        k = 2 if rng.random() < 0.7 else 3
+        cases.append(dict(kind="shared", series=[dict(uniform=rng.random() < 0.5, n=rng.choice([64, 200]), seed=rng.randrange(10 ** 6)) for _ in range(k)],
+                          via=[rng.choice(SHARED_VIA) for _ in range(k)] if i % 3 else ["modify"] * k, m=rng.choice([5, 37, 100]),
+                          **{"as": rng.choice(SHARED_AS) if i % 2 else "ndarray"},
+                          ops=[rng.choice(SHARED_OPS) for _ in range(rng.randint(1, 5))]))
+    return cases
+
+
 def check_case(inp):
     """evaluate a copy / db case; an exception raised by the implementation is a failing clause"""
     try:
@@ -1343,6 +2002,10 @@ def check_case(inp):
             return check_query_case(inp)
         if inp["kind"] == "gui":
             return check_gui_case(inp)
+        if inp["kind"] == "dbq":
+            return check_dbq_case(inp)
+        if inp["kind"] == "shared":
+            return check_shared_case(inp)
         raise ValueError(inp["kind"])
     except Exception as e:
         tb = traceback.extract_tb(e.__traceback__)
@@ -1571,6 +2234,15 @@ def run(chk):
                 chk.nontriv(repr(inp))
         for oracle, expected, observed in check_case(inp):
             chk.fail(oracle, noted(inp), expected, observed)
+    # ---- one caller's array handed to two series; in-place operations on the first ----------------------------------------------
+    for inp in [c for c in core.load_corpus("C10") if c.get("kind") == "shared"] + gen_shared_cases(rng, chk.quick):
+        chk.count("shared-array-case")
+        chk.nontriv(repr(inp))
+        chk.dist("shared:%s/%s" % ("+".join(inp["via"]), inp["as"]))
+        for oracle, expected, observed in check_case(inp):
+            chk.fail(oracle, inp, expected, observed)
+    # ---- histories of retrievals on one database with rejected calls in between, every call under a time limit ---------------------
+    run_dbq_cases(chk)
     # ---- the GUI computations concurrently on the same series ----------------------------------------------------------------------
     for inp in [c for c in core.load_corpus("C10") if c.get("kind") == "gui"]:
         chk.count("threads", inp["rounds"])
@@ -1589,7 +2261,7 @@ def run(chk):
 def replay(rp):
     import random
     inp = rp["input"]
-    if inp.get("kind") in ("copy", "db", "query", "gui"):
+    if inp.get("kind") in ("copy", "db", "query", "gui", "dbq", "shared"):
         F = check_case(inp)
         for oracle, expected, observed in F:
             print("FAILS: %s\n       expected %s, observed %s" % (oracle, expected, observed))
